@@ -4,6 +4,16 @@ pub mod c03;
 pub mod c04;
 pub mod c05;
 pub mod c07;
+pub mod c08;
+pub mod c09;
+pub mod c10;
+pub mod c11;
+pub mod c12;
+pub mod c13;
+pub mod c14;
+pub mod c15;
+pub mod c16;
+pub mod c17;
 pub mod common;
 
 use crate::ctx::{Ctx, Stats, Tier};
@@ -66,6 +76,76 @@ pub fn monitors() -> Vec<Monitor> {
             cases: (40000, 600000, 80),
             rule: "one case = the same block sequence fed (a) one block per call and (b) through a generated schedule of mixed call kinds, or through the same permutation under a different declared parallel width; outputs and iv_state at every piece boundary must agree; non-trivial = the scheduled run formed >= 2 full backend batches plus a non-empty tail (seen in the spy log), or has >= 3 pieces; distinct = (subject, cipher config, length class, schedule class, batches, tail)",
             thresholds: c07_thresholds,
+        },
+        Monitor {
+            prop: "C08",
+            run: c08::run,
+            cases: (30000, 500000, 60),
+            rule: "one case = one byte string cut into generated pieces (empties, boundary-then-short, straddles, single bytes, random) fed to a byte-level stream cipher / buffered CFB and compared with one call on the whole string, or one message whose one-shot CFB/CFB-8 output is compared with the output on each sampled prefix (every k in the last two blocks); non-trivial = more than one block and >= 2 pieces; distinct = (subject, cipher config, residue class, schedule class)",
+            thresholds: c08_thresholds,
+        },
+        Monitor {
+            prop: "C09",
+            run: c09::run,
+            cases: (30000, 500000, 60),
+            rule: "one case = run(m[..k]); export; import into a fresh instance; run(m[k..]) for 1-4 chained cut points (block cuts; byte cuts for buffered CFB via get_state/from_state), compared with the uninterrupted run; at every cut the exported value is compared with the chaining value computed from the object's own input/output (or the next block seen by the spy cipher), and with the state of the opposite direction fed corresponding data; non-trivial = >= 2 blocks; distinct = (subject, cipher config, length class, cut position class, number of cuts)",
+            thresholds: c09_thresholds,
+        },
+        Monitor {
+            prop: "C10",
+            run: c10::run,
+            cases: (12000, 200000, 40),
+            rule: "one case = one history of 3-24 {seek::<T>(q), apply(n), current_pos::<T>} operations on one seekable stream cipher, starting at 0 or at a far block (2^16, 2^32, 2^64, limit-40, around u128::MAX/bs) reached with set_block_pos+from_core; a shadow (block, offset) position is compared with try_current_pos in all five integer types after every op, and produced bytes with the keystream from offset 0 / a second instance seeking delta earlier / the definitional keystream (gated); non-trivial = >= 3 ops; distinct = (subject, cipher config, IV class, backward seek seen, seek inside block after partial read seen, offset >= 2^32 seen, far start)",
+            thresholds: c10_thresholds,
+        },
+        Monitor {
+            prop: "C11",
+            run: c11::run,
+            cases: (20000, 300000, 40),
+            rule: "one case = one history on an instance positioned 0-4 blocks before the end of its keystream (via set_block_pos+from_core, or by handing out blocks 0..2 and then seeking): requests of room, room+-1, room+-block, ... bytes, seeks inside and past the end, with (current_pos, block_pos, remaining_blocks, caller buffer) compared before/after every refused call and a counter-block -> position map checked for reuse; or one try_apply_keystream_partial call on a core with 0-5 blocks remaining; non-trivial = every case (all are within 5 blocks of the limit); distinct = (subject, cipher config, start distance, reached-by-seek, exact-fit seen, +1 byte seen, +block seen)",
+            thresholds: c11_thresholds,
+        },
+        Monitor {
+            prop: "C12",
+            run: c12::run,
+            cases: (30000, 500000, 80),
+            rule: "one case = one operation sequence executed in place and buffer-to-buffer (two different output pre-fills, at least one non-zero: ones / random / copy of input / complement) on separate instances; outputs, exported state after every piece and the read-only input are compared; covers block/blocks/inout calls, padded x 4 forms, one-shot, byte streams, cores incl. the partial call, CTS; non-trivial = non-empty data; distinct = (subject, cipher config, length class, schedule class, pre-fill)",
+            thresholds: c12_thresholds,
+        },
+        Monitor {
+            prop: "C13",
+            run: c13::run,
+            cases: (40000, 600000, 80),
+            rule: "one case = one row of the contract table (CTS with L<b / L>=b; every equal-length b2b API with unequal lengths; padded decryption of a non-multiple length in 4 forms x 5 paddings; construction from key/IV slices of wrong/right length for every type) with all caller buffers and canary zones compared byte-for-byte after a rejected call, or one history of another property's workload run in panic-only mode (every unwind out of a public operation is recorded by the panic hook; harness-internal panics are harness errors); non-trivial = every case; distinct = (row kind or workload, subject, cipher config, form/padding/length class)",
+            thresholds: c13_thresholds,
+        },
+        Monitor {
+            prop: "C14",
+            run: c14::run,
+            cases: (30000, 500000, 60),
+            rule: "one case = one message pushed through a listed pair (or triple/quadruple) of front-ends: buffered/block-level/one-shot CFB; OfbCore as block encryptor/decryptor/keystream core/byte stream; CTR and BelT cores block-wise vs byte-level; CTS on whole blocks vs plain CBC / raw block encryption (CS3: last two blocks exchanged; n=1 equal); the four constructors of every type; non-trivial = >= 2 blocks (every case for the CTS and constructor pairs); distinct = (pair, cipher config, length class, schedule classes)",
+            thresholds: c14_thresholds,
+        },
+        Monitor {
+            prop: "C15",
+            run: c15::run,
+            cases: (30000, 500000, 60),
+            rule: "one case = dec(c) vs dec(c xor delta@j) (or enc for causality) under one schedule, delta in {1 bit, 1 byte, whole block}, j in {first, middle, last}; support of the difference compared exactly with the definition (CBC: j garbled, j+1 = delta, rest 0; CFB: j = delta, j+1 changed, rest 0; CFB-8: byte j = delta, b bytes free, then 0; CTR/OFB/BelT: delta in place only, spy-cipher inputs identical for different data; PCBC: constant propagation; IGE: indefinite propagation; the cancellation cases the definition itself allows are excluded and counted); non-trivial = >= 2 blocks; distinct = (subject, cipher config, length class, j class, delta class, schedule class)",
+            thresholds: c15_thresholds,
+        },
+        Monitor {
+            prop: "C16",
+            run: c16::run,
+            cases: (20000, 300000, 60),
+            rule: "one case = history h1 on an object, clone, then h2 on the original and h3 on the clone interleaved op by op under a generated schedule (or two separately built instances, same or different key/IV; or original and clone driven from two barrier-released OS threads), every operation result (output bytes + exported state/position) compared with fresh instances replaying h1;h2 and h1;h3 in isolation; non-trivial = every case; distinct = (subject, cipher config, interleaving hash, clone point)",
+            thresholds: c16_thresholds,
+        },
+        Monitor {
+            prop: "C17",
+            run: c17::run,
+            cases: (20000, 300000, 0),
+            rule: "one case = (a) Debug {:?}, {:#?} and AlgorithmName text of one type collected over 3 variants of (key, IV, history) before and after the history: the set must be a singleton; or (b) one object built in zero-filled harness-owned storage, driven through a random history in place, then dropped in place while the storage is read back with volatile reads and searched for every high-entropy 8-byte window (and its byte reversal) of the IV, exported state, E(state), E(IV) and buffered keystream; with feature zeroize: 0 windows may remain; without (control build): windows must be found before and after drop, which shows the scan sees what it looks for; non-trivial = every case; distinct = (check, subject, cipher config, history length)",
+            thresholds: c17_thresholds,
         },
         Monitor {
             prop: "C02",
@@ -167,6 +247,211 @@ fn c07_thresholds(st: &Stats, tier: Tier, _cfgs: &[String]) -> Vec<String> {
         need(st, &mut u, &format!("two-batches-and-tail.{}", s), 5);
     }
     need(st, &mut u, "ok.width-twin", 20);
+    u
+}
+
+fn c08_thresholds(st: &Stats, tier: Tier, _cfgs: &[String]) -> Vec<String> {
+    let mut u = Vec::new();
+    if tier == Tier::Slice {
+        return u;
+    }
+    for f in ["ctr32be", "ctr32le", "ctr64be", "ctr64le", "ctr128be", "ctr128le", "ofb", "beltctr"] {
+        need(st, &mut u, &format!("ok.{}/stream", f), 20);
+        need(st, &mut u, &format!("empty-piece.{}", f), 3);
+        need(st, &mut u, &format!("boundary-then-short.{}", f), 3);
+        need(st, &mut u, &format!("straddle.{}", f), 3);
+    }
+    for f in ["cfb-buf/enc", "cfb-buf/dec"] {
+        need(st, &mut u, &format!("ok.{}", f), 20);
+        need(st, &mut u, &format!("empty-piece.{}", f), 3);
+        need(st, &mut u, &format!("boundary-then-short.{}", f), 3);
+        need(st, &mut u, &format!("straddle.{}", f), 3);
+    }
+    for f in ["cfb/enc/prefix", "cfb/dec/prefix", "cfb8/enc/prefix", "cfb8/dec/prefix"] {
+        need(st, &mut u, &format!("ok.{}", f), 10);
+    }
+    u
+}
+
+fn c09_thresholds(st: &Stats, tier: Tier, _cfgs: &[String]) -> Vec<String> {
+    let mut u = Vec::new();
+    if tier == Tier::Slice {
+        return u;
+    }
+    for f in ["cbc", "pcbc", "ige", "cfb", "cfb8", "ofb"] {
+        for d in ["enc", "dec"] {
+            need(st, &mut u, &format!("ok.{}/{}", f, d), 20);
+            need(st, &mut u, &format!("cuts.{}/{}", f, d), 30);
+        }
+        need(st, &mut u, &format!("enc-dec-state.{}", f), 10);
+    }
+    for f in ["cfb-buf/enc", "cfb-buf/dec"] {
+        need(st, &mut u, &format!("ok.{}", f), 20);
+        need(st, &mut u, &format!("cut-mid-block.{}", f), 10);
+    }
+    for f in ["ctr32be", "ctr32le", "ctr64be", "ctr64le", "ctr128be", "ctr128le", "ofb", "beltctr"] {
+        need(st, &mut u, &format!("ok.{}/core", f), 10);
+    }
+    u
+}
+
+fn c10_thresholds(st: &Stats, tier: Tier, _cfgs: &[String]) -> Vec<String> {
+    let mut u = Vec::new();
+    if tier == Tier::Slice {
+        return u;
+    }
+    for f in ["ctr32be", "ctr32le", "ctr64be", "ctr64le", "ctr128be", "ctr128le", "beltctr"] {
+        need(st, &mut u, &format!("ok.{}/stream", f), 20);
+        need(st, &mut u, &format!("backward-seek.{}", f), 5);
+        need(st, &mut u, &format!("seek-inside-block-after-partial.{}", f), 5);
+        need(st, &mut u, &format!("offset>=2^32.{}", f), 5);
+    }
+    for t in ["i32", "u32", "u64", "u128", "usize"] {
+        need(st, &mut u, &format!("seek-type.{}", t), 20);
+        need(st, &mut u, &format!("pos-type.{}", t), 100);
+    }
+    need(st, &mut u, "ref.from-zero", 50);
+    need(st, &mut u, "ref.seek-delta", 50);
+    need(st, &mut u, "pos-overflow-reported", 20);
+    u
+}
+
+fn c11_thresholds(st: &Stats, tier: Tier, _cfgs: &[String]) -> Vec<String> {
+    let mut u = Vec::new();
+    if tier == Tier::Slice {
+        return u;
+    }
+    for f in ["ctr32be", "ctr32le", "ctr64be", "ctr64le", "ctr128be", "ctr128le", "beltctr"] {
+        need(st, &mut u, &format!("exact-fit-ok.{}", f), 3);
+        need(st, &mut u, &format!("over-by-1-err.{}", f), 3);
+        need(st, &mut u, &format!("over-by-block-err.{}", f), 3);
+        need(st, &mut u, &format!("remaining-near-limit.{}/stream", f), 5);
+    }
+    u
+}
+
+fn c12_thresholds(st: &Stats, tier: Tier, _cfgs: &[String]) -> Vec<String> {
+    let mut u = Vec::new();
+    if tier == Tier::Slice {
+        return u;
+    }
+    for f in ["cbc", "pcbc", "ige", "cfb", "cfb8", "ofb"] {
+        for d in ["enc", "dec"] {
+            need(st, &mut u, &format!("nonzero-prefill.{}/{}", f, d), 20);
+            need(st, &mut u, &format!("ok.{}/{}/padded", f, d), 5);
+        }
+    }
+    for f in ["cfb/enc/oneshot", "cfb/dec/oneshot", "cfb8/enc/oneshot", "cfb8/dec/oneshot"] {
+        need(st, &mut u, &format!("ok.{}", f), 5);
+    }
+    for f in ["ctr32be", "ctr64le", "ctr128be", "ofb", "beltctr"] {
+        need(st, &mut u, &format!("ok.{}/stream", f), 5);
+        need(st, &mut u, &format!("ok.{}/core", f), 3);
+    }
+    for v in ["cbc_cs1", "cbc_cs2", "cbc_cs3", "ecb_cs1", "ecb_cs2", "ecb_cs3"] {
+        for d in ["enc", "dec"] {
+            need(st, &mut u, &format!("ok.{}/{}", v, d), 5);
+        }
+    }
+    u
+}
+
+fn c13_thresholds(st: &Stats, tier: Tier, _cfgs: &[String]) -> Vec<String> {
+    let mut u = Vec::new();
+    if tier == Tier::Slice {
+        return u;
+    }
+    for v in ["cbc_cs1", "cbc_cs2", "cbc_cs3", "ecb_cs1", "ecb_cs2", "ecb_cs3"] {
+        need(st, &mut u, &format!("cts-short-rejected.{}", v), 10);
+        need(st, &mut u, &format!("cts-accepted.{}", v), 5);
+    }
+    for k in ["blocks_b2b", "oneshot_b2b", "apply_keystream_b2b", "cts_b2b"] {
+        need(st, &mut u, &format!("unequal-rejected.{}", k), 20);
+    }
+    for f in ["cbc", "pcbc", "ige", "cfb", "ofb"] {
+        need(st, &mut u, &format!("nonmultiple-rejected.{}", f), 10);
+    }
+    need(st, &mut u, "ctor.right-lengths-ok", 50);
+    need(st, &mut u, "ctor.wrong-key-rejected", 50);
+    need(st, &mut u, "ctor.wrong-iv-rejected", 50);
+    for w in ["C01", "C03", "C05", "C07", "C08", "C09", "C10", "C11", "C12", "C14", "C15", "C16"] {
+        need(st, &mut u, &format!("panic-monitor.workload.{}", w), 50);
+    }
+    u
+}
+
+fn c14_thresholds(st: &Stats, tier: Tier, _cfgs: &[String]) -> Vec<String> {
+    let mut u = Vec::new();
+    if tier == Tier::Slice {
+        return u;
+    }
+    need(st, &mut u, "ok.cfb-fronts/enc", 20);
+    need(st, &mut u, "ok.cfb-fronts/dec", 20);
+    need(st, &mut u, "ok.ofb-fronts", 20);
+    for f in ["ctr32be", "ctr64le", "ctr128be", "ctr128le", "beltctr"] {
+        need(st, &mut u, &format!("ok.{}/core-vs-stream", f), 5);
+    }
+    for v in ["cbc_cs1", "cbc_cs2", "cbc_cs3", "ecb_cs1", "ecb_cs2", "ecb_cs3"] {
+        for d in ["enc", "dec"] {
+            need(st, &mut u, &format!("cts-pair.{}.{}", v, d), 10);
+        }
+    }
+    u
+}
+
+fn c15_thresholds(st: &Stats, tier: Tier, _cfgs: &[String]) -> Vec<String> {
+    let mut u = Vec::new();
+    if tier == Tier::Slice {
+        return u;
+    }
+    for f in ["cbc", "pcbc", "ige", "cfb", "cfb8", "ofb"] {
+        for pos in ["first", "middle", "last"] {
+            need(st, &mut u, &format!("pos.{}/dec.{}", f, pos), 5);
+        }
+        need(st, &mut u, &format!("delta.{}/dec.1bit", f), 5);
+        need(st, &mut u, &format!("causality.{}/enc", f), 5);
+    }
+    for f in ["ctr32be", "ctr64le", "ctr128be", "ofb", "beltctr"] {
+        need(st, &mut u, &format!("ok.{}/stream", f), 10);
+    }
+    need(st, &mut u, "cfb8.resync-observed", 10);
+    u
+}
+
+fn c16_thresholds(st: &Stats, tier: Tier, _cfgs: &[String]) -> Vec<String> {
+    let mut u = Vec::new();
+    if tier == Tier::Slice {
+        return u;
+    }
+    for f in ["cbc/enc", "cbc/dec", "pcbc/enc", "ige/dec", "cfb/enc", "cfb/dec", "cfb8/enc", "ofb/enc", "cfb-buf/enc", "cfb-buf/dec", "ofb/stream", "ctr32be/stream", "ctr64le/stream", "ctr128be/stream", "ctr128le/core", "ctr32le/core", "ofb/core"] {
+        need(st, &mut u, &format!("ok.{}", f), 5);
+        need(st, &mut u, &format!("clone-after-history.{}", f), 3);
+    }
+    need(st, &mut u, "interleavings", 200);
+    need(st, &mut u, "ok.two-instances", 50);
+    need(st, &mut u, "ok.threads", 20);
+    u
+}
+
+fn c17_thresholds(st: &Stats, tier: Tier, _cfgs: &[String]) -> Vec<String> {
+    let mut u = Vec::new();
+    if tier == Tier::Slice {
+        return u;
+    }
+    let types = [
+        "cbc/enc", "cbc/dec", "pcbc/enc", "pcbc/dec", "ige/enc", "ige/dec", "cfb/enc", "cfb/dec", "cfb8/enc", "cfb8/dec", "ofb/enc", "ofb/dec", "cfb-buf/enc", "cfb-buf/dec", "ofb/stream", "ofb/core", "ctr32be/stream",
+        "ctr32le/core", "ctr64be/core", "ctr64le/stream", "ctr128be/stream", "ctr128le/core", "beltctr/stream", "beltctr/core",
+    ];
+    for t in types {
+        need(st, &mut u, &format!("zeroize.scanned.{}", t), 5);
+        // the scan must see live secrets in every type it scans, in both builds
+        need(st, &mut u, &format!("zeroize.live-hit.{}", t), 3);
+        if !cfg!(feature = "zeroize") {
+            // control build: the bytes are still there after drop, i.e. the scan can see them
+            need(st, &mut u, &format!("zeroize.after-drop-hit.{}", t), 3);
+        }
+    }
+    need(st, &mut u, "debug.variants", 200);
     u
 }
 
